@@ -112,13 +112,14 @@ def _main(args) -> int:
     sys.stdout.flush()
     ctx = impl.new_context(prop, args.tier)
     stop = {"flag": False}
+    known = load_known()
 
     def one(seed):
         if stop["flag"]:
             return None
         r = impl.run_seed(prop, seed, ctx)
-        if r["violations"] and not args.keep_going:
-            stop["flag"] = True
+        if not args.keep_going and any(known_match(prop, v, known) is None for v in r["violations"]):
+            stop["flag"] = True  # fail fast on something new (listed findings do not stop the search)
         return r
 
     results = runner.pmap(one, seeds, args.jobs)
@@ -140,7 +141,6 @@ def _main(args) -> int:
         selftest.update(extra)
 
     # ---- violations: group by signature, minimise the first of each, report
-    known = load_known()
     by_sig = {}
     for r in done:
         for v in r["violations"]:
